@@ -1064,6 +1064,20 @@ func (e *Engine) evalSelector(ex *ast.SelectorExpr, st *State) Value {
 	if sel != nil && len(sel.Index()) > 1 {
 		unsup("promoted field %s at %s", ex.Sel.Name, e.src(ex))
 	}
+	if _, isPtr := e.typeOf(ex.X).Underlying().(*types.Pointer); isPtr {
+		// a pointer the executor itself knows may be nil — the zero value of a receive from an exhausted stream, of a
+		// failed comma-ok assertion or of a map miss — is dereferenced: the guard of that value is an obligation
+		// (pointers held in data are taken to be non-nil, as everywhere else)
+		isNil := func(t *Term) bool { return t.Op == "const" && t.Name == "nil" }
+		switch {
+		case isNil(bt.T):
+			e.assert(st, tFalse, "nil-dereference", e.src(ex), nil)
+		case bt.T.Op == "ite" && len(bt.T.Args) == 3 && isNil(bt.T.Args[2]):
+			e.assert(st, bt.T.Args[0], "nil-dereference", e.src(ex), nil)
+		case bt.T.Op == "ite" && len(bt.T.Args) == 3 && isNil(bt.T.Args[1]):
+			e.assert(st, mkNot(bt.T.Args[0]), "nil-dereference", e.src(ex), nil)
+		}
+	}
 	return e.readField(st, bt, ex.Sel.Name)
 }
 
